@@ -226,6 +226,32 @@ def replay(m):
     return {'ok': int(not bad), 'n': n, 'bad': bad, 'tid': m['tid']}
 
 
+def post_sorted(V):
+    """byte strings that are the elements of a dtml-in shown in sorted / reversed order (by the element itself, by the key of
+    (key, value) pairs): inserting s.encode(encoding) is equivalent to inserting s"""
+    from DocumentTemplate.DT_HTML import HTML
+    texts = ['a-caf\xe9', 'c-z\xe8bre', 'b-\xfcber <x>']
+    opts = ['sort', 'sort=sequence-item', 'reverse', 'sort reverse', 'sort size=9', 'sort_expr="\'\'"', 'sort=sequence-item reverse_expr="1"',
+            'reverse size=2 orphan=0']
+    for enc in ('utf-8', 'latin-1', 'cp1252', 'utf-16'):
+        for o in opts:
+            for body in ('<dtml-var sequence-item>,', '&dtml-sequence-item;,', '[<dtml-var sequence-item html_quote size=30>]'):
+                for pairs in (False, True):
+                    src = '<dtml-in seq %s>%s</dtml-in>' % (o, body)
+                    outs = []
+                    for conv in (lambda t: t, lambda t: t.encode(enc)):
+                        seq = [(t[0], conv(t)) for t in texts] if pairs else [conv(t) for t in texts]
+                        V.count('renderings')
+                        try:
+                            r = (HTML(src, encoding=enc) if enc != 'utf-8' else HTML(src))(seq=seq)
+                            outs.append(r if isinstance(r, str) else ['not text', repr(r)[:80]])
+                        except Exception as e:  # noqa
+                            outs.append(['raised', type(e).__name__])
+                    if outs[0] != outs[1] or not isinstance(outs[0], str):
+                        V.violation({'kind': 'departure', 'source': src, 'encoding': enc, 'expected': outs[0], 'got': outs[1],
+                                     'elements': 'pairs' if pairs else 'plain', 'cls': 'sorted-bytes-elements'})
+
+
 def main(tier):
     global _CASES
     V = common.Verdicts(PID, tier)
@@ -256,6 +282,7 @@ def main(tier):
                          'got': b['got'], 'n_encodings_failing': len(r['bad']),
                          'cls': 'class-object' if set(vals) & {'clsstr', 'cls', 'builtincls'} else
                          'fmt-html-quote-bytes' if 'fmt=html-quote' in b['source'] else 'other'})
+    post_sorted(V)
     cov = {'states': res.distinct, 'transitions': res.generated,
            'traces_validated_against_impl': V.counters.get('behaviours_conform', 0), 'cases': len(cases), 'exhaustive': True,
            'rule': 'piece trees (1-3 pieces; text/bytes x {ascii, latin-1, euro, BMP, astral, specials} x {plain, html_quote, '
